@@ -175,7 +175,7 @@ def run_property(prop, tier, only_rule=None, quiet=False):
             for rid, fl in floors.items():
                 if isinstance(fl, dict):
                     fl = fl.get(tier, fl.get("quick", 1))
-                if ctx.counts.get(rid, 0) < fl:
+                if ctx.counts.get(rid, 0) < fl and not ctx.violations:
                     raise AnalysisBroken("rule %s matched %d site(s), floor is %d - an anchor vanished or a rule went vacuous"
                                          % (rid, ctx.counts.get(rid, 0), fl))
     except (AnalysisBroken, PathBoundExceeded) as e:
